@@ -53,6 +53,24 @@ def run(ctx):
     total["cases"] += ssumm["cases"]
     total["evals"] += ssumm["evals"]
     total["nontrivial"] += ssumm["nontrivial"]
+    # "cut to the first `limit` of that order" over SEVERAL fractions: the searcher visits the fractions in chunks
+    # and stops early (calcEnsuredIDsCount, List.Sort): MultiFrac.tla's store family (C05's module: every 4-ID corpus x
+    # partition into <=3 fractions x fractions-per-iteration x limit x order x total) against the one-fraction answer
+    mdrv = vlib.build_driver("multifrac")
+    mcf = os.path.join(ctx.scratch, "search-multifrac.jsonl")
+    r3 = vlib.run_tlc(ctx, "MultiFrac.tla", "MultiFrac_store.cfg", case_file=mcf, timeout=3400)
+    if r3.violated:
+        raise vlib.Infra("TLC: %s violated in MultiFrac.tla" % r3.violated)
+    vlib.require_tlc_ok(r3, "MultiFrac store (for C02)")
+    margs = [["-workers", str(vlib.NCPU)]] + ([] if quick else [["-workers", str(vlib.NCPU), "-wide"]])
+    for a in margs:
+        mism, msumm, _ = vlib.run_cases(ctx, mdrv, a, mcf, label="limit-multifrac")
+        total["cases"] += msumm["cases"]
+        total["evals"] += msumm["evals"]
+        total["nontrivial"] += msumm["nontrivial"]
+        for m in mism:
+            ctx.violation("search:multifrac:%s" % (m.get("what") or "")[:20], m,
+                          what="ids / total over several fractions differ from the first `limit` documents of the order: " + str(m.get("what"))[:120])
     ctx.cov["traces_validated_against_impl"] = total["cases"]
     ctx.cov["evaluations"] = total["evals"]
     ctx.cov["distinct_nontrivial"] = total["nontrivial"]
@@ -61,6 +79,6 @@ def run(ctx):
     ctx.cov["rule"] = ("cases = states of SearchCases (exhaustive small scope: every corpus of <=2 docs over the X* universes x "
                        "every query of XQA u XQB; plus seeded -simulate over <=4 docs, AST depth <=2); each case is evaluated on an active "
                        "and on a sealed fraction via AST and via SeqQL; non-trivial = expected total > 0; plus 16 (thorough 40) "
-                       "real-size shapes of IndexLayout.tla (posting lists over several LID/ID/token blocks) with 100-400 search probes each, asked of the active, sealed and reloaded fraction")
+                       "real-size shapes of IndexLayout.tla (posting lists over several LID/ID/token blocks) with 100-400 search probes each, asked of the active, sealed and reloaded fraction; plus MultiFrac.tla's store family (81 648 cases: limit and early stop over several fractions)")
     ctx.assumptions += ["TLC evaluates QueryRef correctly", "documents carry the _all_ token as the proxy emits it",
                         "timestamps >= 1 (MID 0 makes DocProvider substitute wall clock)"]
